@@ -89,7 +89,7 @@ func (runInfo *runInfoStruct) invokeLetMemberExpr(expr *ast.MemberExpr) {
 			return
 		}
 
-		value, runInfo.err = convertReflectValueToType(value, runInfo.rv.Type())
+		value, runInfo.err = runInfo.convertValue(value, runInfo.rv.Type())
 		if runInfo.err != nil {
 			runInfo.err = newStringError(expr, "type "+value.Type().String()+" cannot be assigned to type "+runInfo.rv.Type().String()+" for struct")
 			runInfo.rv = nilValue
@@ -102,13 +102,13 @@ func (runInfo *runInfoStruct) invokeLetMemberExpr(expr *ast.MemberExpr) {
 	// Map
 	case reflect.Map:
 		var key reflect.Value
-		key, runInfo.err = convertReflectValueToType(reflect.ValueOf(expr.Name), runInfo.rv.Type().Key())
+		key, runInfo.err = runInfo.convertValue(reflect.ValueOf(expr.Name), runInfo.rv.Type().Key())
 		if runInfo.err != nil {
 			runInfo.err = newStringError(expr, "index type string cannot be used for map index type "+runInfo.rv.Type().Key().String())
 			runInfo.rv = nilValue
 			return
 		}
-		value, runInfo.err = convertReflectValueToType(value, runInfo.rv.Type().Elem())
+		value, runInfo.err = runInfo.convertValue(value, runInfo.rv.Type().Elem())
 		if runInfo.err != nil {
 			runInfo.err = newStringError(expr, "type "+value.Type().String()+" cannot be assigned to type "+runInfo.rv.Type().Elem().String()+" for map")
 			runInfo.rv = nilValue
@@ -187,7 +187,7 @@ func (runInfo *runInfoStruct) invokeLetItemSlice(expr *ast.ItemExpr, item reflec
 
 	if index == item.Len() {
 		// try to do automatic append
-		value, runInfo.err = convertReflectValueToType(value, item.Type().Elem())
+		value, runInfo.err = runInfo.convertValue(value, item.Type().Elem())
 		if runInfo.err != nil {
 			runInfo.err = newStringError(expr, "type "+value.Type().String()+" cannot be assigned to type "+item.Type().Elem().String()+" for slice index")
 			runInfo.rv = nilValue
@@ -213,7 +213,7 @@ func (runInfo *runInfoStruct) invokeLetItemSlice(expr *ast.ItemExpr, item reflec
 		return
 	}
 
-	value, runInfo.err = convertReflectValueToType(value, item.Type())
+	value, runInfo.err = runInfo.convertValue(value, item.Type())
 	if runInfo.err != nil {
 		runInfo.err = newStringError(expr, "type "+value.Type().String()+" cannot be assigned to type "+item.Type().String()+" for slice index")
 		runInfo.rv = nilValue
@@ -227,7 +227,7 @@ func (runInfo *runInfoStruct) invokeLetItemSlice(expr *ast.ItemExpr, item reflec
 // invokeLetItemMap assigns a value to a map index.
 // runInfo.rv must hold the index value.
 func (runInfo *runInfoStruct) invokeLetItemMap(expr *ast.ItemExpr, item reflect.Value, value reflect.Value) {
-	runInfo.rv, runInfo.err = convertReflectValueToType(runInfo.rv, item.Type().Key())
+	runInfo.rv, runInfo.err = runInfo.convertValue(runInfo.rv, item.Type().Key())
 	if runInfo.err != nil {
 		runInfo.err = newStringError(expr, "index type "+runInfo.rv.Type().String()+" cannot be used for map index type "+item.Type().Key().String())
 		runInfo.rv = nilValue
@@ -239,7 +239,7 @@ func (runInfo *runInfoStruct) invokeLetItemMap(expr *ast.ItemExpr, item reflect.
 		return
 	}
 
-	value, runInfo.err = convertReflectValueToType(value, item.Type().Elem())
+	value, runInfo.err = runInfo.convertValue(value, item.Type().Elem())
 	if runInfo.err != nil {
 		runInfo.err = newStringError(expr, "type "+value.Type().String()+" cannot be assigned to type "+item.Type().Elem().String()+" for map")
 		runInfo.rv = nilValue
@@ -272,7 +272,7 @@ func (runInfo *runInfoStruct) invokeLetItemString(expr *ast.ItemExpr, item refle
 		return
 	}
 
-	value, runInfo.err = convertReflectValueToType(value, item.Type())
+	value, runInfo.err = runInfo.convertValue(value, item.Type())
 	if runInfo.err != nil {
 		runInfo.err = newStringError(expr, "type "+value.Type().String()+" cannot be assigned to type "+item.Type().String())
 		runInfo.rv = nilValue
@@ -448,7 +448,7 @@ func (runInfo *runInfoStruct) invokeLetDerefExpr(expr *ast.DerefExpr) {
 		runInfo.rv = nilValue
 		return
 	}
-	value, runInfo.err = convertReflectValueToType(value, elem.Type())
+	value, runInfo.err = runInfo.convertValue(value, elem.Type())
 	if runInfo.err != nil {
 		runInfo.err = newStringError(expr, "type "+value.Type().String()+" cannot be assigned to type "+elem.Type().String()+" for dereference")
 		runInfo.rv = nilValue
